@@ -56,6 +56,8 @@ type FMsg struct {
 	// NParams / NPFmt / NRFmt override the counts written into a Bind message
 	// (value -1 = use the real count).
 	CountOverride map[string]int `json:"cnt,omitempty"`
+	// Rep (K "flood"): the body-less message of type T, Rep times in a row.
+	Rep int64 `json:"rep,omitempty"`
 }
 
 type enc struct{ b []byte }
@@ -74,7 +76,7 @@ func (e *enc) cstr(s string) {
 // and raw bytes).
 func (m *FMsg) TypeByte() byte {
 	switch m.K {
-	case "startup", "ssl", "cancel", "gss", "raw":
+	case "startup", "ssl", "cancel", "gss", "raw", "flood":
 		return 0
 	case "typed":
 		return m.T
@@ -179,6 +181,9 @@ func (c Chunk) Len() int64 {
 func (m *FMsg) Encode() []Chunk {
 	if m.K == "raw" {
 		return []Chunk{{Lit: append([]byte(nil), m.Data...)}}
+	}
+	if m.K == "flood" {
+		return []Chunk{{Pat: []byte{m.T, 0, 0, 0, 4}, N: 5 * m.Rep}}
 	}
 	body := m.Body()
 	if m.NoNul && len(body) > 0 {
